@@ -96,7 +96,7 @@ def main():
         ))
     m = dict(
         version=1,
-        setup_cmd='cd lean && lake build PyGam pgdriver',
+        setup_cmd='sh tools/setup.sh',
         hooks=dict(guard='PYGAM_VERIF', enable='no source hooks: checks import /repo in-process (PYTHONPATH=/repo) and observe through the public API, user callbacks and numpy.random patching inside the harness process',
                    baseline_off_cmd='cd /repo && /venv/bin/python -m pytest -ra -q -p no:cacheprovider --timeout=900 --continue-on-collection-errors',
                    source_commits=[], add_only=True),
